@@ -8,7 +8,7 @@ for d in seeded/${1:-}*/; do
   name=$(basename $d)
   prop=$(python3 -c "import json;print(json.load(open('$d/meta.json'))['targets_property'])")
   (cd /repo && git apply /verif/$d/patch.diff) || { echo "$name: patch does not apply"; continue; }
-  out=$(VERIF_NO_EXTRA_SEEDS=1 ./check $prop 2>&1 | grep -E "VIOLATION" | head -1)
+  out=$(VERIF_NO_EXTRA_SEEDS=1 VERIF_NO_MINIMISE=1 VERIF_NO_ESCALATE=1 ./check $prop 2>&1 | grep -E "VIOLATION" | head -1)
   git -C /repo checkout -- .
   if [ -n "$out" ]; then ok=$((ok+1)); echo "$name [$prop]: $out"; else miss=$((miss+1)); echo "$name [$prop]: MISSED"; fi
 done
